@@ -848,8 +848,10 @@ def record_call(fun, x0, args=(), bounds=None, constraints=(), callback=None, op
         def _h(sig, frm):
             raise Hang()
         try:
-            old = signal.signal(signal.SIGALRM, _h)
-            signal.setitimer(signal.ITIMER_REAL, timeout)
+            # CPU time of this process, not wall-clock time: a loop that never ends burns CPU, while a machine
+            # that is merely overloaded must not turn a 0.1 s run into a "hang" (met once, DESIGN 9.4)
+            old = signal.signal(signal.SIGPROF, _h)
+            signal.setitimer(signal.ITIMER_PROF, timeout)
             armed = True
         except Exception:
             armed = False
@@ -873,8 +875,8 @@ def record_call(fun, x0, args=(), bounds=None, constraints=(), callback=None, op
         run.exc_msg = str(ex)[:200]
     finally:
         if armed:
-            signal.setitimer(signal.ITIMER_REAL, 0)
-            signal.signal(signal.SIGALRM, old)
+            signal.setitimer(signal.ITIMER_PROF, 0)
+            signal.signal(signal.SIGPROF, old)
         _stack().pop()
     wall = time.time() - t0
     dig_after = {"x0": _digest(x0), "bounds": _digest(bounds), "cons": _digest(constraints),
